@@ -511,6 +511,9 @@ package lang
 //@   after Evaluator.evalCaseMatch: $nmatch = (ret0 && ret2 == nil ? $nmatch + 1 : $nmatch)
 //@   after Evaluator.evalStatement: $ranBlock = true
 //@   after Evaluator.evalExpr: $lastCell = ret0
+//@   after Lexer.GetString: $litText = ret0
+//@   ensures[C05,C13] numeric-literal-is-its-decimal-text: istype(expr, *ExprLiteral) && as(expr, *ExprLiteral).token.Tag == Num && err == nil ==> result0.Value.Tag == ValueNum && same(*result0.Value.Num, pfVal($litText))
+//@   ensures[C13] regex-and-string-literals-are-their-text: istype(expr, *ExprLiteral) && as(expr, *ExprLiteral).token.Tag == Regex && err == nil ==> result0.Value.Tag == ValueRegex && *result0.Value.Str == $litText
 //@   init $calleeSeen = false
 //@   after Evaluator.evalExpr: $calleeSeen = true
 //@   assert[C07,C15] callee-and-receiver-are-evaluated-before-the-arguments: istype(expr, *ExprCall) ==> $calleeSeen @ Evaluator.evalExprList
@@ -1081,6 +1084,7 @@ package lang
 //@ ghost $sawEnd bool
 //@ ghost $keyDone bool
 //@ ghost $calleeSeen bool
+//@ ghost $litText string
 //@ func Parser.printStatement [C01,C13]
 //@   requires parserOK(p)
 //@   updates nothing
@@ -1196,8 +1200,9 @@ package lang
 //@   implements parseRule.prefix
 //@   loop 0 invariant ok: parserOK(p) && p.inLoop == old(p.inLoop) && p.inFunction == old(p.inFunction) && p.depth == old(p.depth)
 
-//@ func match [C01,C06]
+//@ func match [C01,C06,C13]
 //@   implements parseRule.prefix
+//@   ensures[C13] closing-brace-ends-the-statement: result1 == nil ==> arg0.didEndStatement
 //@   loop 0 invariant ok: parserOK(p) && p.inLoop == old(p.inLoop) && p.inFunction == old(p.inFunction) && p.depth == old(p.depth) && p.previous != nil
 //@   loop 1 invariant ok: parserOK(p) && p.inLoop == old(p.inLoop) && p.inFunction == old(p.inFunction) && p.depth == old(p.depth) && p.previous != nil
 
